@@ -350,6 +350,10 @@ theorem envStep_invU (s : St) (e : EnvOp) (h : InvU s) : InvU (envStep s e) := b
     · rename_i l hl; exact updListener_invU s i l _ h hl
     · exact h
   case advance dt => exact ⟨h.auto1, h.auto2, h.liveUsed, h.gone, h.disj⟩
+  case connFail i =>
+    split
+    · rename_i l hl; exact updEst_invU s i l _ h hl
+    · exact h
 
 theorem mkPair_invU (s : St) (i : Id) (h : InvU s) : InvU (mkPair s i) := by
   unfold mkPair fresh
